@@ -71,6 +71,15 @@ impl<T: ?Sized> RwLock<T> {
         ev(Ev::WriteAcquire, self.addr());
         RwLockWriteGuard { lock: self }
     }
+    /// Non-blocking acquisitions: refuse exactly when the blocking form would have to wait.
+    pub fn try_read(&self) -> Option<RwLockReadGuard<'_, T>> {
+        if self.writer.get() { ev(Ev::WouldBlockRead, self.addr()); return None; }
+        Some(self.read())
+    }
+    pub fn try_write(&self) -> Option<RwLockWriteGuard<'_, T>> {
+        if self.writer.get() || self.readers.get() != 0 { ev(Ev::WouldBlockWrite, self.addr()); return None; }
+        Some(self.write())
+    }
     pub fn get_mut(&mut self) -> &mut T { self.data.get_mut() }
     /// Ghost: number of live read guards.
     pub fn model_readers(&self) -> usize { self.readers.get() }
